@@ -24,6 +24,8 @@ mod c20;
 mod corpus;
 mod surfgen;
 mod lub;
+mod spsser;
+mod c19;
 
 use common::Opts;
 use std::path::PathBuf;
@@ -58,6 +60,7 @@ fn main() {
         | "c12" => c12::run(&opts),
         | "c16" => c16::run(&opts),
         | "c20" => c20::run(&opts),
+        | "c19" => c19::run(&opts),
         | other => {
             eprintln!("unknown property {other}");
             2
